@@ -1,9 +1,11 @@
 """C18 — simplex solvers return the minimum-norm point (structural clauses)."""
+from . import scopes
 from ..core.report import DOMAIN_D
 from ..rules import simplex, johnson, mink
 
 
 def run(idx, rep, tier):
+    rep.set_scope(scopes.scope(idx, "C18"))
     rep.explanation = (
         "Table rules over the two simplex solvers. Jolt: sub-solver masks remapped to the right vertex bits for every "
         "possible mask, by constant evaluation of the integer remap expression (R-BITMAP); returned masks name exactly the "
